@@ -10,6 +10,9 @@ DONE = {
  "C04": ("Theorems C04_{record,dictany,class}_accept, key_errs (one entry per missing/invalid key), no_undeclared_leak, unknown_first, class_gate, obj_stage (Coq, closed, any number of keys) + correspondence over every present/absent/valid/invalid/extra pattern + per-key oracle.", "8.C04"),
  "C05": ("Theorems C05_union_{accept,reject,first_wins}, optional, maybe, lazy, cache, key_not_required, always_valid, map_result (Coq, closed) + correspondence over all accept/reject patterns, wrappers around every kind, recursive definitions on deep data + variant-by-variant oracle with invocation logs.", "8.C05"),
  "C06": ("Theorem C06_agree: for all trees/inputs/fuel, if the sync call returns, the async call returns the same term for arbitrary async-only checks (so none is skipped); C06_returns: async-free trees never raise the assertion (Coq, closed). Tied by running both entry points on every case, an async-check invocation counter, and the regenerated twin-residue fact (python ast translator -> Facts_twins.v).", "8.C06"),
+ "C15": ("42 theorems (Coq, closed): every built-in predicate/processor equals its documented relation over the mathematical object for all arguments of the admitted type (bounds on Z and exact rationals, NaN fails bounds, multiples as divisibility, lengths/counts, membership, prefix/suffix as list decomposition, not-blank <-> a non-whitespace char, strip decomposition and idempotence, ASCII case idempotence, typed uniqueness <-> typed_nodup). Tied by exhaustive evaluation of the bounded (parameter, argument) plane in Coq and on the implementation, plus an independent reference (Fraction arithmetic, slicing, pairwise comparison). Partial: regex and non-ASCII case mapping are oracles.", "8.C15"),
+ "C16": ("Theorems C16_{decimal,uuid,date,datetime,tuple} (iff characterisations of the default coercers), never_coerced, subclass rejection, coercion error types (Coq, closed); C16_roundtrip_partial under the stated stdlib print/parse hypothesis. Tied by correspondence with per-case oracle tables from the real constructors, the regenerated coercer-shape fact (python ast -> Facts_coercers.v) and a direct comparison with the stdlib constructors. Partial: stdlib parsers are oracles.", "8.C16"),
+ "C20": ("Theorems C20_call, C20_history (all finite histories of sync/async calls), C20_runs_iff_miss, C20_interleaved (every schedule of any number of overlapping async calls) on the cache state machine (Coq, closed). Tied by running exhaustive/sampled histories and all interleavings of 2-3 overlapping calls on a real CacheValidatorBase subclass with logged get/set and a run-counting wrapper, and by evaluating Model/Cache.history in Coq on the same histories.", "8.C20"),
 }
 checks, na = [], []
 for p in props:
